@@ -157,11 +157,17 @@ class Program:
         self.srccache = {}
         self.suffix_cache = {}
         for name, fl in self.fns.items():
-            f = fl[-1]
+          for f in (fl if len(fl) > 1 and '<impl at' in name else fl[-1:]):
             m = re.match(r'^((?:[\w]+::)*)<impl at ([^:]+):(\d+):(\d+): (\d+):(\d+)>::(.*)$', name)
             if m:
                 ty, tr, gen = self.impl_of(m.group(2), int(m.group(3)), int(m.group(4)), int(m.group(6)) if m.group(3) == m.group(5) else None)
                 meth = m.group(7)
+                if '$' in ty:
+                    # impl generated by macro_rules!: all instances share one source location; the Self type is read from
+                    # the signature (first parameter for methods with a receiver, otherwise the returned type)
+                    p0 = f.params[0].split(': ', 1)[1] if f.params else ''
+                    cand = base_name(p0) if p0 and base_name(p0) not in ('Cst', 'NodeRef') else base_name(re.sub(r'^Option<(.*)>$', r'\1', f.ret.strip()))
+                    ty = cand
                 key = f"{ty}::{meth}" if tr is None else f"<{ty} as {tr}>::{meth}"
                 f.key = key; f.generics = gen; f.file = m.group(2)
                 self.byname[key] = f
